@@ -9,7 +9,7 @@ open Nngv_model
 open Conv
 
 let cur_fixes = { fx_ephold = c10_FX_EPHOLD; fx_epid = c10_FX_EPID; fx_ctxfini = c10_FX_CTXFINI;
-                  fx_lateop = c10_FX_LATEOP; fx_ctxopen = c10_FX_CTXOPEN }
+                  fx_lateop = c10_FX_LATEOP; fx_ctxopen = c10_FX_CTXOPEN; fx_ctxmark = c10_FX_CTXMARK }
 
 let ni = nat_of_int
 let nn = n_of_int
@@ -298,6 +298,10 @@ let script () =
                 else UPipeClose (ni (idx tgt 1)) in
         do_steps [LSpawn u];
         observe (last_ret ())
+    | "bufs" :: _ :: rest ->
+        (* queue depths do not exist in the model (pending sets are abstract): echo the implementation's return value *)
+        let rv = List.fold_left (fun acc x -> if String.length x > 2 && String.sub x 0 2 = "rv" then int_of_string (String.sub x 2 (String.length x - 2)) else acc) 0 rest in
+        observe rv
     | "probe" :: _ -> observe 0
     | _ -> observe 3
   done with End_of_file -> ())
@@ -306,7 +310,7 @@ let () =
   match Array.to_list Sys.argv with
   | _ :: "script" :: _ -> script ()
   | _ :: "--flags" :: _ ->
-      Printf.printf "ephold=%b epid=%b ctxfini=%b lateop=%b ctxopen=%b\n" c10_FX_EPHOLD c10_FX_EPID c10_FX_CTXFINI c10_FX_LATEOP c10_FX_CTXOPEN
+      Printf.printf "ephold=%b epid=%b ctxfini=%b lateop=%b ctxopen=%b ctxmark=%b\n" c10_FX_EPHOLD c10_FX_EPID c10_FX_CTXFINI c10_FX_LATEOP c10_FX_CTXOPEN c10_FX_CTXMARK
   | _ :: "explore" :: rest ->
       let fxn, rest = match rest with
         | "pinned" :: r -> fixes_none, r | "fixed" :: r -> fixes_all, r | "cur" :: r -> cur_fixes, r | r -> cur_fixes, r in
